@@ -6,17 +6,26 @@ its layers.  It is M-GlyphOrder (`GlyphOrder.lean`, the model C12 is proved abou
 `postNotification` of `_set_glyphOrder` added: every function below returns what its M-GlyphOrder namesake returns
 (`stepN_fst`, Lemmas/OrderNotify.lean) plus the deliveries.
 
+Since ext-c12 M-GlyphOrder sends every layer notification through `post` (dropped while the layer's notifications are
+disabled, queued while they are held, delivered to the font otherwise), `flush` (the queue re-posted by the release
+that ends the hold) and `deliver` (the font's three callbacks): `postN` / `flushN` / `deliverN` mirror them, so the
+release of a held layer — `Layer.insertGlyph`'s own bracket included — announces every update it causes, in order.
+
+An `OrdEv` is one `postNotification("Font.GlyphOrderChanged")` of the font.  While the font's OWN notifications are
+not held (`fontHeld = 0`) it is delivered at once: `snap` is then what the observer reads.  (Under `font.holdNotifications()`
+delivery is deferred to the release; what is claimed there is about the posts.)
+
 A delivery records the payload (`oldValue`, `newValue`: the value stored under `public.glyphOrder` in the lib, `none`
 = key absent) and what the lib holds at the instant the observer is called; `font.glyphOrder` is that value with
 "absent" read as `[]`.
 
 Core Lean only.
 -/
-import DefconModel.GlyphOrderV1
+import DefconModel.GlyphOrder
 
 namespace DefconModel
 namespace OrderNotify
-open GlyphOrderV1
+open GlyphOrder
 
 structure OrdEv where
   old : Option (List Name)
@@ -63,20 +72,60 @@ def glyphDeletedCbN (f : Font) (n : Name) : Font × List OrdEv :=
 def glyphRenamedCbN (f : Font) (old new : Name) : Font × List OrdEv :=
   updateGlyphOrderN f (some new) (if anyLayerHas f old then none else some old)
 
+/-- `deliver`: the font's callback for one layer notification -/
+def deliverN (f : Font) : Note → Font × List OrdEv
+  | .added n => glyphAddedCbN f n
+  | .deleted n => glyphDeletedCbN f n
+  | .renamed o n => glyphRenamedCbN f o n
+
+/-- `post`: dropped when the layer is disabled, queued when it is held, else delivered to the font -/
+def postN (f : Font) (L : String) (note : Note) : Font × List OrdEv :=
+  match AL.get? f.layers L with
+  | none => (f, [])
+  | some l =>
+    if l.disabled ≠ 0 then (f, [])
+    else if l.held ≠ 0 then (setLayer f L { l with queue := enqueue l.queue note }, [])
+    else if l.observed then deliverN f note else (f, [])
+
+/-- `flush`: the queue re-posted in order -/
+def flushN (f : Font) (L : String) : List Note → Font × List OrdEv
+  | [] => (f, [])
+  | n :: ns => ((flushN (postN f L n).1 L ns).1, (postN f L n).2 ++ (flushN (postN f L n).1 L ns).2)
+
+def releaseLayerN (f : Font) (L : String) : (Font × Res) × List OrdEv :=
+  match AL.get? f.layers L with
+  | none => ((f, .err .keyError), [])
+  | some l =>
+    if l.held = 0 then ((f, .err .keyError), [])
+    else if l.held = 1 then
+      (((flushN (setLayer f L { l with held := 0, queue := [] }) L l.queue).1, .ok),
+       (flushN (setLayer f L { l with held := 0, queue := [] }) L l.queue).2)
+    else ((setLayer f L { l with held := l.held - 1 }, .ok), [])
+
 def newGlyphN (f : Font) (layer : String) (g : Name) : (Font × Res) × List OrdEv :=
   match AL.get? f.layers layer with
   | none => ((f, .err .keyError), [])
   | some l =>
-    let f1 := setLayer f layer { l with glyphs := addName l.glyphs g }
-    if l.observed then ((( glyphAddedCbN f1 g).1, .ok), (glyphAddedCbN f1 g).2) else ((f1, .ok), [])
+    (((postN (setLayer f layer { l with glyphs := addName l.glyphs g }) layer (.added g)).1, .ok),
+     (postN (setLayer f layer { l with glyphs := addName l.glyphs g }) layer (.added g)).2)
+
+/-- `insertGlyph`: hold, `newGlyph`, release -/
+def insertGlyphN (f : Font) (layer : String) (g : Name) : (Font × Res) × List OrdEv :=
+  match AL.get? f.layers layer with
+  | none => ((f, .err .keyError), [])
+  | some _ =>
+    let f1 := (holdLayer f layer).1
+    let r2 := newGlyphN f1 layer g
+    let r3 := releaseLayerN r2.1.1 layer
+    ((r3.1.1, .ok), r2.2 ++ r3.2)
 
 def delGlyphN (f : Font) (layer : String) (g : Name) : (Font × Res) × List OrdEv :=
   match AL.get? f.layers layer with
   | none => ((f, .err .keyError), [])
   | some l =>
     if g ∈ l.glyphs then
-      let f1 := setLayer f layer { l with glyphs := removeName l.glyphs g }
-      if l.observed then (((glyphDeletedCbN f1 g).1, .ok), (glyphDeletedCbN f1 g).2) else ((f1, .ok), [])
+      (((postN (setLayer f layer { l with glyphs := removeName l.glyphs g }) layer (.deleted g)).1, .ok),
+       (postN (setLayer f layer { l with glyphs := removeName l.glyphs g }) layer (.deleted g)).2)
     else ((f, .err .keyError), [])
 
 def renameN (f : Font) (layer : String) (old new : Name) : (Font × Res) × List OrdEv :=
@@ -86,24 +135,60 @@ def renameN (f : Font) (layer : String) (old new : Name) : (Font × Res) × List
     if old ∈ l.glyphs then
       if old = new then ((f, .ok), [])
       else
-        let f1 := setLayer f layer { l with glyphs := addName (removeName l.glyphs old) new }
-        if l.observed then (((glyphRenamedCbN f1 old new).1, .ok), (glyphRenamedCbN f1 old new).2) else ((f1, .ok), [])
+        (((postN (setLayer f layer { l with glyphs := addName (removeName l.glyphs old) new }) layer
+            (.renamed old new)).1, .ok),
+         (postN (setLayer f layer { l with glyphs := addName (removeName l.glyphs old) new }) layer
+            (.renamed old new)).2)
     else ((f, .err .keyError), [])
 
-/-- one operation of M-GlyphOrder with the deliveries of `Font.GlyphOrderChanged` it causes -/
+def fontNewGlyphN (f : Font) (g : Name) : (Font × Res) × List OrdEv :=
+  match f.default with
+  | some L => newGlyphN f L g
+  | none => (({ f with ghost := addName f.ghost g }, .ok), [])
+
+def fontInsertGlyphN (f : Font) (g : Name) : (Font × Res) × List OrdEv :=
+  match f.default with
+  | some L => insertGlyphN f L g
+  | none => (({ f with ghost := addName f.ghost g }, .ok), [])
+
+def fontDelGlyphN (f : Font) (g : Name) : (Font × Res) × List OrdEv :=
+  match f.default with
+  | some L => delGlyphN f L g
+  | none =>
+    if g ∈ f.ghost then (({ f with ghost := removeName f.ghost g }, .ok), []) else ((f, .err .keyError), [])
+
+/-- one operation of M-GlyphOrder with the posts of `Font.GlyphOrderChanged` it causes, in order -/
 def stepN (f : Font) : Op → (Font × Res) × List OrdEv
   | .newGlyph l g => newGlyphN f l g
-  | .insertGlyph l g => newGlyphN f l g
+  | .insertGlyph l g => insertGlyphN f l g
   | .delGlyph l g => delGlyphN f l g
   | .rename l o n => renameN f l o n
   | .setOrder v => (((setGlyphOrderN f v).1, .ok), (setGlyphOrderN f v).2)
   | .setLib v => (setLib f v, [])
   | .newLayer n => (newLayer f n, [])
   | .delLayer n => (delLayer f n, [])
+  | .renameLayer o n => (renameLayer f o n, [])
+  | .setLayerOrder ns => (setLayerOrder f ns, [])
+  | .setDefault n => (setDefault f n, [])
+  | .fontNewGlyph g => fontNewGlyphN f g
+  | .fontInsertGlyph g => fontInsertGlyphN f g
+  | .fontDelGlyph g => fontDelGlyphN f g
+  | .holdLayer l => (holdLayer f l, [])
+  | .releaseLayer l => releaseLayerN f l
+  | .disableLayer l => (disableLayer f l, [])
+  | .enableLayer l => (enableLayer f l, [])
+  | .holdFont => (holdFont f, [])
+  | .releaseFont => (releaseFont f, [])
 
 /-- the operations Font documents `Font.GlyphOrderChanged` for: everything but a direct write into the lib -/
 def viaFont : Op → Bool
   | .setLib _ => false
+  | _ => true
+
+/-- the operations that post at most one layer notification (everything but the releases of a hold: a release
+re-posts the whole queue, and `insertGlyph` ends with one) -/
+def singlePost : Op → Bool
+  | .insertGlyph _ _ | .fontInsertGlyph _ | .releaseLayer _ => false
   | _ => true
 
 end OrderNotify
